@@ -18,8 +18,8 @@ int compare_icase(const char* a, const char* b)
 {
     while (*a != 0 && *b != 0)
     {
-        int ca = to_lower(*a++);
-        int cb = to_lower(*b++);
+        int ca = static_cast<unsigned char>(to_lower(*a++));
+        int cb = static_cast<unsigned char>(to_lower(*b++));
 
         if (ca == cb)
             continue;
@@ -28,10 +28,11 @@ int compare_icase(const char* a, const char* b)
         return +1;
     }
 
+    // like strcmp: a proper prefix is smaller than the longer string
     if (*a == 0 && *b != 0)
-        return +1;
-    if (*a != 0 && *b == 0)
         return -1;
+    if (*a != 0 && *b == 0)
+        return +1;
     return 0;
 }
 
@@ -41,8 +42,8 @@ int compare_icase(const char* a, tlx::string_view b)
 
     while (*a != 0 && bi != b.end())
     {
-        int ca = to_lower(*a++);
-        int cb = to_lower(*bi++);
+        int ca = static_cast<unsigned char>(to_lower(*a++));
+        int cb = static_cast<unsigned char>(to_lower(*bi++));
 
         if (ca == cb)
             continue;
@@ -51,10 +52,11 @@ int compare_icase(const char* a, tlx::string_view b)
         return +1;
     }
 
+    // like strcmp: a proper prefix is smaller than the longer string
     if (*a == 0 && bi != b.end())
-        return +1;
-    if (*a != 0 && bi == b.end())
         return -1;
+    if (*a != 0 && bi == b.end())
+        return +1;
     return 0;
 }
 
@@ -64,8 +66,8 @@ int compare_icase(tlx::string_view a, const char* b)
 
     while (ai != a.end() && *b != 0)
     {
-        int ca = to_lower(*ai++);
-        int cb = to_lower(*b++);
+        int ca = static_cast<unsigned char>(to_lower(*ai++));
+        int cb = static_cast<unsigned char>(to_lower(*b++));
 
         if (ca == cb)
             continue;
@@ -74,10 +76,11 @@ int compare_icase(tlx::string_view a, const char* b)
         return +1;
     }
 
+    // like strcmp: a proper prefix is smaller than the longer string
     if (ai == a.end() && *b != 0)
-        return +1;
-    if (ai != a.end() && *b == 0)
         return -1;
+    if (ai != a.end() && *b == 0)
+        return +1;
     return 0;
 }
 
@@ -88,8 +91,8 @@ int compare_icase(tlx::string_view a, tlx::string_view b)
 
     while (ai != a.end() && bi != b.end())
     {
-        int ca = to_lower(*ai++);
-        int cb = to_lower(*bi++);
+        int ca = static_cast<unsigned char>(to_lower(*ai++));
+        int cb = static_cast<unsigned char>(to_lower(*bi++));
 
         if (ca == cb)
             continue;
@@ -98,10 +101,11 @@ int compare_icase(tlx::string_view a, tlx::string_view b)
         return +1;
     }
 
+    // like strcmp: a proper prefix is smaller than the longer string
     if (ai == a.end() && bi != b.end())
-        return +1;
-    if (ai != a.end() && bi == b.end())
         return -1;
+    if (ai != a.end() && bi == b.end())
+        return +1;
     return 0;
 }
 
